@@ -115,6 +115,21 @@ Theorem C07_restart_refuses_all : forall evs,
 Proof. exact restart_refuses_all. Qed.
 Print Assumptions C07_restart_refuses_all.
 
+(* Giving up a handshake attempt (last expiry of the retransmit timer) only flushes the staged packets.
+   Since C07_initiator_rekeys_after_120_send holds in EVERY reachable state, an earlier abandoned attempt
+   is no exception to "the initiator starts a new handshake when it sends after 120 s". *)
+Theorem C07_abandon_only_flushes : forall evs,
+  let s := R evs in
+  step s Abandon = (set_staged (set_now s (now s + 1)) 0, out0).
+Proof. exact abandon_only_flushes. Qed.
+Print Assumptions C07_abandon_only_flushes.
+
+Example C07_nonvacuous_abandon :
+  map (fun o => (o_sent o, o_init o))
+      (outs step init (CompleteInitiator 7 ++ [Tick (20 * sec); Initiate false; Abandon; Tick (101 * sec); Send; Tick (5 * sec); Keepalive])) =
+    [([], true); ([0], false); ([], false); ([], true); ([], false); ([], false); ([0], true); ([], false); ([0], true)].
+Proof. vm_compute. reflexivity. Qed.
+
 (* The first message accepted under next promotes it: next -> current -> previous, old previous dropped. *)
 Theorem C07_confirmation_promotes : forall evs n,
   let s := R evs in
@@ -248,7 +263,7 @@ Theorem C07_model_satisfies_spec_depth4 : explore alphabet7 4 init sst0 = Some 1
 Proof. vm_compute. reflexivity. Qed.
 Print Assumptions C07_model_satisfies_spec_depth4.
 
-Theorem C07_model_satisfies_spec_full_depth3 : explore alphabet_full 3 init sst0 = Some 5220.
+Theorem C07_model_satisfies_spec_full_depth3 : explore alphabet_full 3 init sst0 = Some 6175.
 Proof. vm_compute. reflexivity. Qed.
 Print Assumptions C07_model_satisfies_spec_full_depth3.
 
